@@ -200,6 +200,134 @@ fn exec_egs(n: usize, gens: Vec<Vec<usize>>) -> Case {
     }
 }
 
+fn closure_set(n: usize, gens: &[Vec<usize>]) -> std::collections::BTreeSet<Vec<usize>> {
+    let id: Vec<usize> = (0..n).collect();
+    let mut set = std::collections::BTreeSet::new();
+    set.insert(id.clone());
+    let mut todo = vec![id];
+    while let Some(p) = todo.pop() {
+        for g in gens {
+            let q: Vec<usize> = (0..n).map(|i| g[p[i]]).collect();
+            if set.insert(q.clone()) {
+                todo.push(q);
+            }
+        }
+    }
+    set
+}
+
+/// the e-graph path with redundancy ("restricted to non-redundant slots"): the symmetries are asserted by unions, and the
+/// argument positions `red` are declared redundant by `f(.., x, ..) = f(.., fresh, ..)` — before the symmetries, after them,
+/// or in between.  Expected (Lean model `egrRun` and, independently, brute force here): the orbit of a redundant position is
+/// redundant, and a permuted copy is equal exactly when the permutation maps the remaining positions to themselves and its
+/// restriction is the restriction of an element of the generated group.
+fn exec_egr(n: usize, gens: Vec<Vec<usize>>, red: Vec<usize>, order: usize) -> Case {
+    use crate::langs::Main;
+    use crate::terms::*;
+    let omega: Vec<u32> = (1..=n as u32).map(|i| 4 * i).collect();
+    let qs = perms_of(n);
+    let f = |v: &Vec<Vec<usize>>| v.iter().map(|p| enc_perm(&omega, p)).collect::<Vec<_>>().join("/");
+    let line = format!(
+        "egr {};{};{};{};{order}",
+        omega.iter().map(|x| x.to_string()).collect::<Vec<_>>().join(","),
+        f(&gens),
+        f(&qs),
+        red.iter().map(|&r| omega[r].to_string()).collect::<Vec<_>>().join(",")
+    );
+    // brute force
+    let grp = closure_set(n, &gens);
+    let mut dead = vec![false; n];
+    for g in &grp {
+        for &r in &red {
+            dead[g[r]] = true;
+        }
+    }
+    let keep: Vec<usize> = (0..n).filter(|i| !dead[*i]).collect();
+    let restricted: std::collections::BTreeSet<Vec<usize>> = grp.iter().map(|g| keep.iter().map(|&i| g[i]).collect()).collect();
+    let expect_cont: String = qs.iter().map(|q| b(restricted.contains(&keep.iter().map(|&i| q[i]).collect::<Vec<usize>>())).to_string()).collect();
+    let expect_count = restricted.len();
+    let nontrivial = !red.is_empty() && keep.len() >= 2 && expect_count > 1;
+    let om = omega.clone();
+    let nkeep = keep.len();
+    let r = in_fresh_thread(move || {
+        intern_names();
+        let mut tags = Vec::new();
+        let v = match n {
+            2 => 7,
+            3 => 8,
+            _ => 9,
+        };
+        let leaf = |p: &Vec<usize>| ATerm { v, fields: p.iter().map(|&i| CField::Slot(om[i])).collect(), children: vec![] };
+        let spare = 4 * (n as u32 + 1);
+        let leaf_red = |r: usize| ATerm { v, fields: (0..n).map(|i| CField::Slot(if i == r { spare } else { om[i] })).collect(), children: vec![] };
+        let idp: Vec<usize> = (0..n).collect();
+        // `order / 3` fresh slots are drawn first: the class's own slot names (and with them the iteration order of the hash
+        // sets inside its group) then differ from case to case
+        for _ in 0..order / 3 {
+            let _ = Slot::fresh();
+        }
+        let mut eg: EGraph<Main> = EGraph::default();
+        let t = eg.add_expr(to_recexpr::<Main>(&leaf(&idp)));
+        // the steps: symmetries (S i) and redundancies (R r), interleaved as `order % 3` says
+        let mut steps: Vec<(bool, usize)> = Vec::new();
+        match order % 3 {
+            0 => {
+                steps.extend((0..gens.len()).map(|i| (true, i)));
+                steps.extend(red.iter().map(|&r| (false, r)));
+            }
+            1 => {
+                steps.extend(red.iter().map(|&r| (false, r)));
+                steps.extend((0..gens.len()).map(|i| (true, i)));
+            }
+            _ => {
+                let mut gi = 0;
+                for &r in &red {
+                    if gi < gens.len() {
+                        steps.push((true, gi));
+                        gi += 1;
+                    }
+                    steps.push((false, r));
+                }
+                steps.extend((gi..gens.len()).map(|i| (true, i)));
+            }
+        }
+        for (is_sym, i) in steps {
+            let u = if is_sym { leaf(&gens[i]) } else { leaf_red(i) };
+            let tu = eg.add_expr(to_recexpr::<Main>(&u));
+            if guarded(|| eg.union(&t, &tu)).is_err() {
+                tags.push("viol:panic".to_string());
+            }
+        }
+        let cont: String = qs
+            .iter()
+            .map(|q| {
+                let tq = eg.add_expr(to_recexpr::<Main>(&leaf(q)));
+                match guarded(|| eg.eq(&t, &tq)) {
+                    Ok(x) => b(x).to_string(),
+                    Err(_) => "panic".to_string(),
+                }
+            })
+            .collect();
+        let lead = eg.find_applied_id(&t).id;
+        let count = eg.verif_group_count(lead);
+        if count != expect_count {
+            tags.push("viol:class-group-size".to_string());
+        }
+        if eg.slots(lead).len() != nkeep {
+            tags.push("viol:redundant-slot-count".to_string());
+        }
+        if cont != expect_cont {
+            tags.push("viol:equal-copies-differ-from-brute-force".to_string());
+        }
+        tags.push(format!("t:order{}", order % 3));
+        (vec![cont, count.to_string(), eg.slots(lead).len().to_string()], tags)
+    });
+    match r {
+        Ok((outs, tags)) => Case { line, impl_out: outs.join(";"), nontrivial, tags },
+        Err(e) => Case { line, impl_out: format!("PANIC {e}"), nontrivial: true, tags: vec!["viol:panic".into()] },
+    }
+}
+
 const OMEGAS: [&[u32]; 6] = [&[4, 8], &[4, 8, 12], &[4, 8, 12, 16], &[2, 6, 10, 14], &[4, 2, 8, 6], &[8, 12, 2]];
 
 pub fn run(ctx: &mut Ctx) {
@@ -257,6 +385,58 @@ pub fn run(ctx: &mut Ctx) {
         let k = rng.range(2, 4);
         let gens: Vec<Vec<usize>> = (0..k).map(|_| perms[rng.range(1, perms.len() - 1)].clone()).collect();
         ctx.emit(exec_egs(4, gens));
+    }
+    // e-graph path with redundant positions: 1-3 generators on 3-4 slots (the widest leaf operator has four), 1-2 redundant
+    // positions, three interleavings
+    for _ in 0..ctx.count / 2 {
+        let mut rng = ctx.rng.fork();
+        let n = rng.range(3, 4);
+        let perms = perms_of(n);
+        let k = rng.range(1, 3);
+        let gens: Vec<Vec<usize>> = (0..k)
+            .map(|_| {
+                if rng.chance(1, 2) {
+                    // a product of disjoint transpositions / short cycles: leaves room for slots that stay
+                    let mut p: Vec<usize> = (0..n).collect();
+                    for _ in 0..rng.range(1, 2) {
+                        let (i, j) = (rng.below(n), rng.below(n));
+                        p.swap(i, j);
+                    }
+                    p
+                } else {
+                    perms[rng.range(1, perms.len() - 1)].clone()
+                }
+            })
+            .collect();
+        let mut red: Vec<usize> = vec![rng.below(n)];
+        if rng.chance(1, 4) {
+            let r2 = rng.below(n);
+            if r2 != red[0] {
+                red.push(r2);
+            }
+        }
+        let mut order = rng.below(3);
+        let (mut n, mut gens, mut red) = (n, gens, red);
+        if rng.chance(1, 3) {
+            // two blocks {a,b} and {c,d} of the four positions: one generator acts on both blocks at once, another inside the
+            // second block only; a position of the second block becomes redundant.  The symmetry of the first block is then
+            // known only through a generator that also moves the dropped positions, so what is left of the group depends on
+            // every such generator being restricted or re-asserted, in whatever order the group hands them out
+            n = 4;
+            let mut pos: Vec<usize> = (0..4).collect();
+            rng.shuffle(&mut pos);
+            let (a, b2, c, d) = (pos[0], pos[1], pos[2], pos[3]);
+            let mut both: Vec<usize> = (0..4).collect();
+            both.swap(a, b2);
+            both.swap(c, d);
+            let mut second: Vec<usize> = (0..4).collect();
+            second.swap(c, d);
+            gens = if rng.chance(1, 2) { vec![both, second] } else { vec![second, both] };
+            red = vec![if rng.chance(1, 2) { c } else { d }];
+            order = if rng.chance(3, 4) { 0 } else { 2 };
+        }
+        order += 3 * rng.below(8);
+        ctx.emit(exec_egr(n, gens, red, order));
     }
     // random: 1-4 generators on 5 and 6 slots
     for _ in 0..ctx.count {
@@ -329,9 +509,21 @@ pub fn replay_egs(body: &str) -> Case {
     exec_egs(omega.len(), gens)
 }
 
+pub fn replay_egr(body: &str) -> Case {
+    let parts: Vec<&str> = body.split(';').collect();
+    let omega: Vec<u32> = parts[0].split(',').map(|x| x.parse().unwrap()).collect();
+    let pos = |x: &str| omega.iter().position(|o| *o == x.parse::<u32>().unwrap()).unwrap();
+    let gens: Vec<Vec<usize>> = if parts[1].is_empty() { vec![] } else { parts[1].split('/').map(|p| p.split(',').map(pos).collect()).collect() };
+    let red: Vec<usize> = if parts[3].is_empty() { vec![] } else { parts[3].split(',').map(pos).collect() };
+    exec_egr(omega.len(), gens, red, parts[4].parse().unwrap_or(0))
+}
+
 pub fn replay(body: &str) -> Case {
     if let Some(b2) = body.strip_prefix("egs ") {
         return replay_egs(b2);
+    }
+    if let Some(b2) = body.strip_prefix("egr ") {
+        return replay_egr(b2);
     }
     let parts: Vec<&str> = body.split(';').collect();
     let omega: Vec<u32> = parts[0].split(',').map(|x| x.parse().unwrap()).collect();
